@@ -6,6 +6,7 @@ import (
 	"reflect"
 	"sort"
 	"strings"
+	"time"
 
 	json "github.com/go-json-experiment/json"
 	"github.com/go-json-experiment/json/jsontext"
@@ -373,9 +374,102 @@ func (sc *Dispatch) runNamedEmptyInterface(t *core.Tape, env *Env) (any, []core.
 	return plan, viols
 }
 
+type c17Named string
+type c17Struct struct{ A int }
+
+// funcBehindAny: a function declared for a concrete type must be called for a
+// value of that type wherever it sits - directly, behind a pointer, and behind
+// an any-typed position (slice element, map value, struct field), where the
+// library has specialised untyped routes for some dynamic types.
+func funcBehindAny[T any](s *core.Stream, st *core.Stats, leaf T, viols *[]core.Violation) {
+	calls := 0
+	byPtr := s.Bool()
+	var fn *json.Marshalers
+	if byPtr {
+		fn = json.MarshalToFunc(func(enc *jsontext.Encoder, v *T) error {
+			calls++
+			return enc.WriteToken(jsontext.String("via-fn"))
+		})
+	} else {
+		fn = json.MarshalFunc(func(v T) ([]byte, error) {
+			calls++
+			return []byte(`"via-fn"`), nil
+		})
+	}
+	var in any
+	var want string
+	n := 1
+	switch pos := s.Draw(6); pos {
+	case 0:
+		in, want = []any{leaf}, `["via-fn"]`
+	case 1:
+		in, want = map[string]any{"k": leaf}, `{"k":"via-fn"}`
+	case 2:
+		in, want = struct{ F any }{leaf}, `{"F":"via-fn"}`
+	case 3:
+		in, want, n = []any{[]any{leaf, leaf}, map[string]any{"k": []any{leaf}}}, `[["via-fn","via-fn"],{"k":["via-fn"]}]`, 3
+	case 4:
+		in, want, n = struct {
+			F T
+			G any
+			H *T
+		}{leaf, leaf, &leaf}, `{"F":"via-fn","G":"via-fn","H":"via-fn"}`, 3
+	default:
+		in, want = []any{&leaf}, `["via-fn"]`
+	}
+	out, err := json.Marshal(in, json.WithMarshalers(fn))
+	st.Steps++
+	if err != nil || string(out) != want || calls != n {
+		*viols = append(*viols, core.Violationf("C17", "C17/dispatch-order", "marshal/func-for-concrete-type-behind-any", "a marshal function for %T (pointer form %v) was called %d times, expected %d, for %T: output %s err=%v, expected %s", leaf, byPtr, calls, n, in, clip(out, 120), classify(err), want))
+	}
+	st.Probe("c17/func-behind-any")
+}
+
+func (sc *Dispatch) runFuncBehindAny(t *core.Tape, env *Env) (any, []core.Violation) {
+	s := t.S("plan-fba")
+	var viols []core.Violation
+	k := s.Draw(14)
+	switch k {
+	case 0:
+		funcBehindAny(s, env.Stats, int(5), &viols)
+	case 1:
+		funcBehindAny(s, env.Stats, int64(-7), &viols)
+	case 2:
+		funcBehindAny(s, env.Stats, uint8(200), &viols)
+	case 3:
+		funcBehindAny(s, env.Stats, uint64(1)<<63, &viols)
+	case 4:
+		funcBehindAny(s, env.Stats, float32(1.5), &viols)
+	case 5:
+		funcBehindAny(s, env.Stats, c17Named("n"), &viols)
+	case 6:
+		funcBehindAny(s, env.Stats, c17Struct{1}, &viols)
+	case 7:
+		funcBehindAny(s, env.Stats, []int{1}, &viols)
+	case 8:
+		funcBehindAny(s, env.Stats, []byte("b"), &viols)
+	case 9:
+		funcBehindAny(s, env.Stats, map[string]int{"a": 1}, &viols)
+	case 10:
+		funcBehindAny(s, env.Stats, time.Duration(5), &viols)
+	case 11:
+		funcBehindAny(s, env.Stats, time.Unix(0, 0).UTC(), &viols)
+	case 12:
+		funcBehindAny(s, env.Stats, [2]int{1, 2}, &viols)
+	default:
+		funcBehindAny(s, env.Stats, jsontext.Value(`{"raw":1}`), &viols)
+	}
+	env.Stats.Nontrivial = true
+	env.Stats.SigAdd(0x172, uint64(k))
+	return map[string]any{"mode": "func-for-concrete-type-behind-any", "type": k}, viols
+}
+
 func (sc *Dispatch) Run(t *core.Tape, env *Env) (any, []core.Violation) {
-	if t.S("mode").Chance(1, 12) {
+	switch ms := t.S("mode"); {
+	case ms.Chance(1, 12):
 		return sc.runNamedEmptyInterface(t, env)
+	case ms.Chance(1, 12):
+		return sc.runFuncBehindAny(t, env)
 	}
 	p := sc.plan(t)
 	st := env.Stats
